@@ -6,8 +6,8 @@ CONSTANTS NRows = 2
  tRP = 2
  tRCD = 2
  tWTP = 3
- tRC = 4
- tRAS = 2
+ tRC = 7
+ tRAS = 5
  CntBitsWTP = 2
  CntBitsRC = 3
  CntBitsRAS = 2
